@@ -47,6 +47,40 @@ class ConsumerLoop:
     loop: ast.For
     task_var: str
     res_var: str
+    wait_calls: list = None     # [(function, the Runner.wait(...) call)]: the loop's own iterable, or what reaches its parameter
+
+    @property
+    def wait_call(self) -> ast.Call:
+        return self.wait_calls[0][1]
+
+
+def _wait_calls_reaching_param(ctx: Ctx, fn: FuncInfo, pname: str, wait_impls: set) -> Optional[list]:
+    """`for … in <param>` inside a local closure: every call site of the closure passes Runner.wait(...) - directly or through
+    a local that holds nothing else."""
+    if fn.parent is None or pname not in [a.arg for a in fn.params]:
+        return None
+    idx = [a.arg for a in fn.params].index(pname)
+    out = []
+    host = fn.parent
+    sites = []
+    for f in [host] + list(host.nested.values()):
+        for c in calls_in(f.node):
+            if isinstance(c.func, ast.Name) and c.func.id == fn.name:
+                sites.append((f, c))
+    if not sites:
+        return None
+    for f, c in sites:
+        a = c.args[idx] if len(c.args) > idx else next((k.value for k in c.keywords if k.arg == pname), None)
+        if isinstance(a, ast.Name):
+            defs = [n for n in walk_local(f.node) if isinstance(n, ast.Assign) and len(n.targets) == 1
+                    and isinstance(n.targets[0], ast.Name) and n.targets[0].id == a.id]
+            if len(defs) != 1:
+                return None
+            a = defs[0].value
+        if not (isinstance(a, ast.Call) and set(ctx.P.resolve_call(a, f)) & wait_impls):
+            return None
+        out.append((f, a))
+    return out
 
 
 @_cached('consumer_loops')
@@ -57,14 +91,20 @@ def consumer_loops(ctx: Ctx) -> list[ConsumerLoop]:
         if fn.module.name.startswith(f'{PKG}.runners'):
             continue
         for n in walk_local(fn.node):
-            if isinstance(n, ast.For) and isinstance(n.iter, ast.Call):
-                cs = set(ctx.P.resolve_call(n.iter, fn))
-                if cs & wait_impls:
-                    t = n.target
-                    if isinstance(t, ast.Tuple) and len(t.elts) == 2 and all(isinstance(e, ast.Name) for e in t.elts):
-                        out.append(ConsumerLoop(fn, n, t.elts[0].id, t.elts[1].id))
-                    else:
-                        raise AnalysisError(f'{fn.where(n)}: consumer loop of Runner.wait does not unpack (task, outcome)')
+            if not isinstance(n, ast.For):
+                continue
+            wc = None
+            if isinstance(n.iter, ast.Call) and set(ctx.P.resolve_call(n.iter, fn)) & wait_impls:
+                wc = [(fn, n.iter)]
+            elif isinstance(n.iter, ast.Name):
+                wc = _wait_calls_reaching_param(ctx, fn, n.iter.id, wait_impls)
+            if not wc:
+                continue
+            t = n.target
+            if isinstance(t, ast.Tuple) and len(t.elts) == 2 and all(isinstance(e, ast.Name) for e in t.elts):
+                out.append(ConsumerLoop(fn, n, t.elts[0].id, t.elts[1].id, wc))
+            else:
+                raise AnalysisError(f'{fn.where(n)}: consumer loop of Runner.wait does not unpack (task, outcome)')
     if not out:
         raise AnalysisError('no consumer loop of Runner.wait found outside the runners')
     return out
@@ -279,6 +319,7 @@ class StateFields:
     insert_loop: Optional[ast.For]
     insert_task_var: str
     insert_dep_var: Optional[str]
+    direct_deps_whole_assign: Optional[ast.Assign] = None   # `self.<direct_deps>[t] = deps` (by reference or copied)
 
 
 def _sub_key_name(e: ast.AST, self_name: str) -> Optional[tuple[str, ast.AST]]:
@@ -334,6 +375,21 @@ def state_fields(ctx: Ctx) -> StateFields:
         raise AnalysisError(f'no dependency-edge registration loop found in the construction phase of {st.cls.name}')
     fn, loop, tvar, dv, by_task, by_dep = best
     sn = fn.self_name
+    # a per-task map filled by one whole assignment `self.F[t] = deps` / `self.F[t] = set(deps)` instead of per-element adds
+    whole_assign = None
+    it_name = loop.iter.id if isinstance(loop.iter, ast.Name) else None
+    if it_name is not None and tvar is not None:
+        for n in walk_local(fn.node):
+            if isinstance(n, ast.Assign) and len(n.targets) == 1:
+                sk = _sub_key_name(n.targets[0], sn)
+                if sk is None or not (isinstance(sk[1], ast.Name) and sk[1].id == tvar) or sk[0] in by_task:
+                    continue
+                v = n.value
+                if isinstance(v, ast.Call) and len(v.args) == 1 and not v.keywords and isinstance(v.func, ast.Name):
+                    v = v.args[0]
+                if isinstance(v, ast.Name) and v.id == it_name:
+                    by_task.append(sk[0])
+                    whole_assign = n
     # fields mutated in the completion phase
     removed_in_completion: set[str] = set()
     for cf in st.completion:
@@ -379,4 +435,5 @@ def state_fields(ctx: Ctx) -> StateFields:
             sk = _sub_key_name(call.func.value, smn)
             if sk is not None and isinstance(sk[1], ast.Call) and dotted(sk[1].func) == 'type':
                 active = sk[0]
-    return StateFields(pending, dd, pd, pt, active, instances, fn, loop, tvar, dv)
+    return StateFields(pending, dd, pd, pt, active, instances, fn, loop, tvar, dv,
+                       whole_assign if (whole_assign is not None and _sub_key_name(whole_assign.targets[0], sn)[0] == dd) else None)
